@@ -16,6 +16,8 @@ package main
 //                                          batchers.OpenFilesToChan over <present> small files and <missing>
 //                                          names that do not exist, logs deferred; afterwards ImmediateLogs.
 //                                          Every failed open is counted (ReadErrors) and logged exactly once.
+//                                          <readers> = 0: batchers.TailFilesToChan (one goroutine per file) over
+//                                          missing names only.
 
 import (
 	"bufio"
@@ -176,7 +178,12 @@ func c05LogErr(f []string) string {
 			ch <- n
 		}
 		close(ch)
-		b := batchers.OpenFilesToChan(ch, false, readers, 10, 2)
+		var b *batchers.Batcher
+		if readers == 0 { // follow mode (one goroutine per file): only names that do not exist, so it ends
+			b = batchers.TailFilesToChan(ch, 10, 2, false, true, false)
+		} else {
+			b = batchers.OpenFilesToChan(ch, false, readers, 10, 2)
+		}
 		for batch := range b.BatchChan() {
 			gotLines += len(batch.Batch)
 			_ = b.StatusString()
@@ -186,12 +193,21 @@ func c05LogErr(f []string) string {
 	seen := map[string]int{}
 	whole := 1
 	for _, l := range lines {
-		const pre = "[Log] Error opening file "
+		pre := "[Log] Error opening file "
+		if readers == 0 {
+			pre = "[Log] Unable to open file: "
+		}
 		if !strings.HasPrefix(l, pre) {
 			whole = 0
 			continue
 		}
 		rest := l[len(pre):]
+		if readers == 0 { // "open <path>: no such file or directory"
+			rest = strings.TrimPrefix(rest, "open ")
+			if j := strings.Index(rest, "missing"); j >= 0 {
+				rest = rest[j:]
+			}
+		}
 		i := strings.Index(rest, ": ")
 		if i < 0 {
 			whole = 0
@@ -265,6 +281,9 @@ func c05LoggerGen(r *Rand, tier string) []string {
 	}
 	for i := 0; i < (n+1)/2; i++ {
 		out = append(out, fmt.Sprintf("logerr %d %d %d", Pick(r, []int{1, 2, 3, 8}), Pick(r, []int{0, 1, 5, 40}), Pick(r, []int{0, 1, 6, 30})))
+		if i == 0 {
+			out = append(out, fmt.Sprintf("logerr 0 %d 0", Pick(r, []int{1, 3, 12})))
+		}
 	}
 	return out
 }
